@@ -131,6 +131,13 @@ func analyseEmits(fn *ssa.Function) *emitInfo {
 				}
 			case *ssa.MakeInterface:
 				// passing the buffer to fmt etc. on an error path: reading only
+			case *ssa.Store:
+				// result spill of functions with defer: *resultslot = b
+				if al, ok := x.Addr.(*ssa.Alloc); ok && x.Val == v {
+					_ = al
+					continue
+				}
+				ei.foreign = append(ei.foreign, r)
 			default:
 				ei.foreign = append(ei.foreign, r)
 			}
